@@ -30,6 +30,7 @@ type World struct {
 	NamedC  map[string]*FuncContract        // functype/interface/extern contracts by key
 	fnIDs   map[*ssa.Function]int
 	fnByID  []*ssa.Function
+	fnIDUsed map[int]bool
 	specs   map[string]*specInfo
 	strLits map[string]string
 
@@ -461,7 +462,11 @@ func (w *World) FnID(fn *ssa.Function) int {
 	if id, ok := w.fnIDs[fn]; ok {
 		return id
 	}
-	id := len(w.fnByID) + 1
+	if w.fnIDUsed == nil {
+		w.fnIDUsed = map[int]bool{}
+	}
+	id := stableID("fn:"+fnDisplay(fn), func(c int) bool { return w.fnIDUsed[c] })
+	w.fnIDUsed[id] = true
 	w.fnIDs[fn] = id
 	w.fnByID = append(w.fnByID, fn)
 	return id
